@@ -1112,6 +1112,9 @@ type c11Found struct {
 	Detail string `json:"detail"`
 	Replay string `json:"replay"`
 	Seed   uint64 `json:"run_seed"`
+	Worker int    `json:"worker"`
+	Index  int    `json:"run_index"` // n-th run of its worker
+	Cold   bool   `json:"cold"`      // executed in a fresh child process
 }
 
 type c11Stats struct {
@@ -1154,12 +1157,17 @@ type c11Stats struct {
 }
 
 type c11Replay struct {
-	Format   string         `json:"format"`
-	Property string         `json:"property"`
-	Class    string         `json:"class"`
-	Run      *C11Run        `json:"run"`
-	Witness  []C11Violation `json:"witness"`
-	Note     string         `json:"note,omitempty"`
+	Format   string  `json:"format"`
+	Property string  `json:"property"`
+	Class    string  `json:"class"`
+	Run      *C11Run `json:"run"`
+	// History: runs executed before Run in the same process. Whether the race
+	// detector can see a race may depend on what the process did before (a
+	// sync.Map, for one, synchronises through a mutex until it has been promoted
+	// to its lock-free read path), and so may lazily initialised package state.
+	History []*C11Run      `json:"history,omitempty"`
+	Witness []C11Violation `json:"witness"`
+	Note    string         `json:"note,omitempty"`
 }
 
 func c11Main(args []string) {
@@ -1268,7 +1276,7 @@ func c11Main(args []string) {
 			rp := c11Replay{Format: "verif-c11-replay/1", Property: "C11", Class: v.Class, Run: spec, Witness: []C11Violation{v}}
 			path := fmt.Sprintf("%s/C11-%d-w%d-%d.json", *replayDir, rseed, *worker, len(st.Violations))
 			writeJSON(path, rp)
-			st.Violations = append(st.Violations, c11Found{v.Class, v.Oracle, firstN(v.Detail, 4000), path, rseed})
+			st.Violations = append(st.Violations, c11Found{v.Class, v.Oracle, firstN(v.Detail, 4000), path, rseed, *worker, n, spec.ConcurrentFirst})
 			if !knownSet[v.Class] {
 				st.unknown++
 			}
@@ -1333,10 +1341,18 @@ func c11ReplayMain(args []string) {
 	if *racelog != "" {
 		rl = &raceLog{path: fmt.Sprintf("%s.%d", *racelog, os.Getpid())}
 	}
+	var earlier []C11Violation
+	for _, h := range rp.History {
+		hr := execRun(h, rl)
+		earlier = append(earlier, hr.Violations...)
+	}
 	res := execRun(rp.Run, rl)
 	if res.SchemaErr != "" {
 		fatal(2, "replay schema does not load on this tree: %s", res.SchemaErr)
 	}
+	// (the race detector reports a pair of stacks once per process: a race that
+	// already showed in a history run counts)
+	res.Violations = append(res.Violations, earlier...)
 	if *out != "" {
 		writeJSON(*out, res)
 	}
@@ -1573,4 +1589,84 @@ func dropTask(r *C11Run, t int) *C11Run {
 		c.BurstTask = 0
 	}
 	return c
+}
+
+// c11EscalateMain: a violation that a worker saw in its n-th run but that does
+// not reproduce from that run alone in a fresh process. The worker's runs 0..n
+// (cold runs left out: they ran in children of their own) are re-executed in
+// one fresh process; if the class shows again the history is reduced by delta
+// debugging over whole runs and published with the run.
+func c11EscalateMain(args []string) {
+	fs := flag.NewFlagSet("c11-escalate", flag.ExitOnError)
+	seed := fs.Uint64("seed", 1, "VERIF_SEED")
+	worker := fs.Int("worker", 0, "worker")
+	index := fs.Int("index", 0, "index of the run that showed the violation")
+	sources := fs.String("sources", "corpus,gen", "workload sources")
+	coldEvery := fs.Int("cold-every", 4, "as in the worker")
+	class := fs.String("class", "", "violation class to look for")
+	racelog := fs.String("racelog", "", "GORACE log_path prefix")
+	out := fs.String("out", "", "replay file to write")
+	budget := fs.Duration("budget", 120*time.Second, "budget")
+	fs.Parse(args)
+	srcs := strings.Split(*sources, ",")
+	wseed := gen.Mix(*seed, uint64(*worker)+5000)
+	var runs []*C11Run
+	for n := 0; n <= *index; n++ {
+		if *coldEvery > 0 && n%*coldEvery == *coldEvery-1 && n != *index {
+			continue
+		}
+		runs = append(runs, genRun(gen.Mix(wseed, uint64(n)), srcs[n%len(srcs)]))
+	}
+	tmp := *out + ".cand.json"
+	tries := 0
+	try := func(rs []*C11Run) bool {
+		need := 1
+		if strings.HasPrefix(*class, "race:") {
+			need = 2
+		}
+		for k := 0; k < need; k++ {
+			tries++
+			writeJSON(tmp, c11Replay{Format: "verif-c11-replay/2", Property: "C11", Class: *class, Run: rs[len(rs)-1], History: rs[:len(rs)-1]})
+			cmd := exec.Command(os.Args[0], "c11-replay", "--racelog", *racelog, tmp)
+			cmd.Env = os.Environ()
+			o, _ := cmd.CombinedOutput()
+			if !strings.Contains(string(o), "REPRODUCED class="+*class+"\n") {
+				return false
+			}
+		}
+		return true
+	}
+	ok := try(runs)
+	for i := 0; !ok && i < 2; i++ {
+		ok = try(runs)
+	}
+	if !ok {
+		os.Remove(tmp)
+		fatal(3, "the worker's runs 0..%d do not reproduce class %s in a fresh process", *index, *class)
+	}
+	deadline := time.Now().Add(*budget)
+	for chunk := (len(runs) + 1) / 2; chunk >= 1; chunk /= 2 {
+		for i := 0; i < len(runs)-1 && time.Now().Before(deadline); {
+			j := i + chunk
+			if j > len(runs)-1 {
+				j = len(runs) - 1 // the last run stays
+			}
+			if j <= i {
+				break
+			}
+			cand := append(append([]*C11Run{}, runs[:i]...), runs[j:]...)
+			if try(cand) {
+				runs = cand
+			} else {
+				i += chunk
+			}
+		}
+		if chunk == 1 {
+			break
+		}
+	}
+	os.Remove(tmp)
+	writeJSON(*out, c11Replay{Format: "verif-c11-replay/2", Property: "C11", Class: *class, Run: runs[len(runs)-1], History: runs[:len(runs)-1],
+		Note: fmt.Sprintf("multi-run witness: %d run(s) executed in one process before the run that shows the violation; reduced from the worker's %d runs in %d fresh-process candidate executions", len(runs)-1, *index+1, tries)})
+	fmt.Printf("escalated witness: class=%s runs=%d candidates=%d\n", *class, len(runs), tries)
 }
